@@ -6,9 +6,13 @@ package kubernetes
 
 import (
 	"context"
+	"encoding/json"
 	"fmt"
+	"os"
 	"strings"
+	"sync"
 	"testing"
+	"time"
 
 	"github.com/rs/zerolog"
 	metav1 "k8s.io/apimachinery/pkg/apis/meta/v1"
@@ -235,3 +239,107 @@ func (a *k8sAdapter) Provider(run *verifc18.Run, mode string) error {
 }
 
 func TestVerifC18(t *testing.T) { verifc18.RunAll(t, &k8sAdapter{}) }
+
+// ---------------------------------------------------------------- the provider's own goroutine
+
+type lifeRepo struct {
+	fakeRepo
+
+	w *watch.FakeWatcher
+}
+
+func (r lifeRepo) Watch(context.Context, metav1.ListOptions) (watch.Interface, error) {
+	return r.w, nil
+}
+
+type lifeClient struct{ r lifeRepo }
+
+func (c lifeClient) RuleSetRepository(string) v1alpha4.RuleSetRepository { return c.r }
+
+type lifeProcessor struct {
+	mu      sync.Mutex
+	created map[string]int
+}
+
+func (p *lifeProcessor) note(rs *config2.RuleSet) error {
+	p.mu.Lock()
+	p.created[rs.Name]++
+	p.mu.Unlock()
+
+	return nil
+}
+
+func (p *lifeProcessor) OnCreated(rs *config2.RuleSet) error { return p.note(rs) }
+func (p *lifeProcessor) OnUpdated(rs *config2.RuleSet) error { return p.note(rs) }
+func (p *lifeProcessor) OnDeleted(*config2.RuleSet) error    { return nil }
+
+type lifeADC struct{}
+
+func (lifeADC) Start(context.Context) error { return nil }
+func (lifeADC) Stop(context.Context) error  { return nil }
+
+// TestVerifC18Lifecycle starts the provider the way the application does - with a context that ends when
+// the start phase is over - and lets rule sets appear afterwards: the provider's informer must still see them.
+func TestVerifC18Lifecycle(t *testing.T) {
+	out := os.Getenv("VERIF_C18_LIFE")
+	if out == "" {
+		t.Skip("VERIF_C18_LIFE not set")
+	}
+
+	w := watch.NewFakeWithChanSize(16, false) //nolint:mnd
+	proc := &lifeProcessor{created: map[string]int{}}
+	p := &provider{
+		p: proc, l: zerolog.Nop(), cl: lifeClient{r: lifeRepo{w: w}}, ac: DefaultClass, id: "verif", configured: true,
+		adc: lifeADC{},
+	}
+
+	startCtx, cancel := context.WithTimeout(context.Background(), 10*time.Second) //nolint:mnd
+	if err := p.Start(startCtx); err != nil {
+		t.Fatalf("INFRA: %v", err)
+	}
+
+	cancel() // the start phase is over
+	time.Sleep(300 * time.Millisecond)
+
+	const changes = 3
+
+	for i := 0; i < changes; i++ {
+		w.Add(&v1alpha4.RuleSet{
+			TypeMeta: metav1.TypeMeta{APIVersion: v1alpha4.GroupName + "/" + v1alpha4.GroupVersion, Kind: "RuleSet"},
+			ObjectMeta: metav1.ObjectMeta{
+				Name: fmt.Sprintf("life%d", i), Namespace: "verif", UID: types.UID(fmt.Sprintf("life-uid-%d", i)),
+				Generation: 1, ResourceVersion: fmt.Sprint(i + 1),
+			},
+			Spec: v1alpha4.RuleSetSpec{AuthClassName: DefaultClass, Rules: rules("v1", fmt.Sprintf("life%d", i))},
+		})
+	}
+
+	applied := 0
+
+	deadline := time.Now().Add(5 * time.Second) //nolint:mnd
+	for time.Now().Before(deadline) {
+		proc.mu.Lock()
+		applied = len(proc.created)
+		proc.mu.Unlock()
+
+		if applied == changes {
+			break
+		}
+
+		time.Sleep(50 * time.Millisecond) //nolint:mnd
+	}
+
+	stopCtx, stop := context.WithTimeout(context.Background(), 5*time.Second) //nolint:mnd
+	defer stop()
+
+	_ = p.Stop(stopCtx)
+
+	line, _ := json.Marshal(map[string]any{
+		"id": "life-kubernetes", "kind": "life", "prov": "kubernetes", "start_context_ended": true,
+		"changes_after_start": changes, "applied_after_start": applied,
+	})
+
+	if err := os.WriteFile(out, append(line, '\n'), 0o600); err != nil {
+		t.Fatalf("INFRA: %v", err)
+	}
+}
